@@ -115,7 +115,7 @@ Theorem s_run_total (A : automaton N cpredicate) rk ids h :
 Proof.
   intros W HAR. pose proof (wf_check_sound string_dom LawfulDomains.string_dom_eq A rk ids W) as HWF.
   destruct (wf_acyclic _ _ _ HWF) as [rank Hrank].
-  apply (run_total_gen string_dom A ids HWF HAR h (fun _ => True) (Nat.max 1 (N.to_nat (blen h))) I (fun _ => True)) with (rank := rank); auto.
+  apply (run_total_gen string_dom A ids HWF HAR h (fun _ => True) (fun _ => True) (fun _ _ => I) (Nat.max 1 (N.to_nat (blen h))) I (fun _ => True)) with (rank := rank); auto.
   - intros m ks inc _ _. destruct (s_bind_all_total h m ks inc) as [l B]. exists l. split; auto.
     split; [eapply s_bind_all_length; eauto|apply Forall_forall; auto].
   - intros st m Hst _. destruct (s_retain_total_ord (a_scope st) m (wf_scope_ordered _ _ _ HWF st Hst)) as [m' E]. eauto.
